@@ -76,8 +76,26 @@ func init() {
 		x := bigOf(it, a[0])
 		return Ite(IntCmp("<", x, IntI(0)), BVi(64, -1), Ite(Eq(x, IntI(0)), BVi(64, 0), BVi(64, 1)))
 	})
-	B("Uint64", func(it *Interp, a []Val) Val { return IntToBV(64, intAbs(bigOf(it, a[0]))) })
-	B("Int64", func(it *Interp, a []Val) Val { return IntToBV(64, bigOf(it, a[0])) })
+	low64 := func(it *Interp, x *Term) *Term {
+		if x.IsConst() {
+			return IntToBV(64, x)
+		}
+		if x.op == "bv2nat" && x.args[0].w == 64 {
+			return x.args[0]
+		}
+		// the low 64 bits as an uninterpreted function with the facts the targets use (int2bv stalls the solver)
+		r := App("big_low64", bvSort(64), x)
+		if !it.p.lenAx[-r.id] {
+			it.p.lenAx[-r.id] = true
+			inRange := And(IntCmp(">=", x, IntI(0)), IntCmp("<", x, IntC(pow2(64))))
+			it.p.assertAxiom(Implies(Eq(x, IntI(0)), Eq(r, BVu(64, 0))))
+			it.p.assertAxiom(Implies(And(inRange, Not(Eq(x, IntI(0)))), Not(Eq(r, BVu(64, 0)))))
+			it.p.assertAxiom(Implies(inRange, Eq(BVToNat(r), x)))
+		}
+		return r
+	}
+	B("Uint64", func(it *Interp, a []Val) Val { return low64(it, intAbs(bigOf(it, a[0]))) })
+	B("Int64", func(it *Interp, a []Val) Val { return low64(it, bigOf(it, a[0])) })
 	B("IsUint64", func(it *Interp, a []Val) Val {
 		x := bigOf(it, a[0])
 		return And(IntCmp(">=", x, IntI(0)), IntCmp("<", x, IntC(pow2(64))))
